@@ -1473,6 +1473,7 @@ class WebSocketClientConnection(simple_httpclient._HTTPConnection):
                 "Sec-WebSocket-Version": "13",
             }
         )
+        self._offered_subprotocols = list(subprotocols or [])
         if subprotocols is not None:
             request.headers["Sec-WebSocket-Protocol"] = ",".join(subprotocols)
         if compression_options is not None:
@@ -1565,6 +1566,13 @@ class WebSocketClientConnection(simple_httpclient._HTTPConnection):
         self.headers = headers
         self.protocol = self.get_websocket_protocol()
         self.protocol._process_server_headers(self.key, self.headers)
+        selected = self.protocol.selected_subprotocol
+        if selected is not None and selected not in self._offered_subprotocols:
+            # RFC 6455 section 4.1: the server may only select a subprotocol
+            # that the client offered.
+            raise ValueError(
+                "server selected subprotocol %r which was not offered" % selected
+            )
         self.protocol.stream = self.connection.detach()
 
         IOLoop.current().add_callback(self.protocol._receive_frame_loop)
